@@ -335,6 +335,10 @@ func c18(ctx *Ctx) (*Outcome, error) {
 		{"middle input ungeneratable", []string{"-p", "x", "-o", "o.go", "a.json", "badref.json", "b.json"}, true},
 		{"middle input broken, outputs mapped", []string{"-p", "x", "--schema-output", "https://example.com/a=oa.go", "--schema-output", "https://example.com/b=ob.go", "-o", "o.go", "a.json", "broken.json", "b.json"}, true},
 		{"last input ungeneratable", []string{"-p", "x", "-o", "o.go", "a.json", "b.json", "badenum.json"}, true},
+		{"ungeneratable definition in a file whose root type name is already taken", []string{"-p", "x", "-o", "o.go", "--resolve-extension", ".json", "ntorder.json", "customer.json"}, true},
+		{"the same, stdout", []string{"-p", "x", "--resolve-extension", ".json", "ntorder.json", "customer.json"}, true},
+		{"the same, root type name taken through --schema-root-type", []string{"-p", "x", "-o", "o.go", "--schema-root-type", "https://example.com/ntc=Customer", "ntorder.json", "customer.json"}, true},
+		{"the same, through titles", []string{"-p", "x", "-o", "o.go", "--struct-name-from-title", "ntorder.json", "customer.json"}, true},
 		{"second input broken", []string{"-p", "x", "-o", "o.go", "a.json", "broken.json"}, true},
 		{"same output two packages", []string{"--schema-package", "https://example.com/a=example.com/p1", "--schema-output", "https://example.com/a=same.go", "--schema-package", "https://example.com/b=example.com/p2", "--schema-output", "https://example.com/b=same.go", "a.json", "b.json"}, true},
 		{"empty package value", []string{"-p", "", "-o", "o.go", "a.json"}, true},
@@ -346,7 +350,9 @@ func c18(ctx *Ctx) (*Outcome, error) {
 	}
 	for rep := 0; rep < ctx.N(2, 6); rep++ {
 		for _, fc := range flagCases {
-			inv := &cli.Inv{Files: []batch.File{{Path: "a.json", Data: good}, {Path: "b.json", Data: good2}, {Path: "broken.json", Data: []byte(`{"type":`)}, {Path: "badtype.json", Data: []byte(`{"$id":"https://example.com/bt","type":"object","properties":{"addr":{"type":"object","properties":{"z":{"type":"string"}}},"w":{"type":"kilogram"}}}`)},
+			inv := &cli.Inv{Files: []batch.File{{Path: "a.json", Data: good}, {Path: "b.json", Data: good2}, {Path: "broken.json", Data: []byte(`{"type":`)},
+				{Path: "ntorder.json", Data: []byte(`{"$id":"https://example.com/nto","title":"Order","type":"object","properties":{"buyer":{"$ref":"#/$defs/Customer"}},"$defs":{"Customer":{"title":"Customer","type":"object","properties":{"name":{"type":"string"}}}}}`)},
+				{Path: "customer.json", Data: []byte(`{"$id":"https://example.com/ntc","title":"Customer","type":"object","properties":{"name":{"type":"string"}},"$defs":{"Loyalty":{"type":"object","properties":{"points":{"type":"strng"}}}}}`)}, {Path: "badtype.json", Data: []byte(`{"$id":"https://example.com/bt","type":"object","properties":{"addr":{"type":"object","properties":{"z":{"type":"string"}}},"w":{"type":"kilogram"}}}`)},
 				{Path: "badref.json", Data: []byte(`{"$id":"https://example.com/br","type":"object","properties":{"r":{"$ref":"#/$defs/Nope"}}}`)}, {Path: "badenum.json", Data: []byte(`{"$id":"https://example.com/be","type":"object","properties":{"e":{"enum":[]}}}`)}, {Path: "empty.json", Data: nil}, {Path: "empty.yaml", Data: nil}, {Path: "adir/keep", Data: []byte("x")}},
 				Args: fc.args, Seed: map[string][]byte{"o.go": []byte(sentinel), "same.go": []byte(sentinel), "oa.go": []byte(sentinel), "ob.go": []byte(sentinel)}, Stdin: []byte("{ not json")}
 			jobs = append(jobs, &c18job{class: "cli:" + fc.label, label: fc.label, inv: inv, must: fc.must, outFile: "o.go"})
